@@ -1,12 +1,12 @@
 package main
 
 import (
-	"regexp"
 	"encoding/json"
 	"flag"
 	"fmt"
 	"os"
 	"path/filepath"
+	"regexp"
 	"sort"
 	"strings"
 	"time"
